@@ -47,6 +47,10 @@ def unobserved_paths(h, cfg):
     return out
 
 
+def program_strategy(cfg, cache):
+    return gen.mixed_program(cfg, cache)
+
+
 def drive(draw, h, cfg):
     names = list(h.prog_rel['funcs'])
     univ = cfg['universe']
